@@ -1261,6 +1261,11 @@ where
             let (f, g) = (rlf(f)?, rlf(g)?);
             job!(lax::law_strict_tensor(&f, &g))
         }
+        "law.lax_dagger_comp3" => {
+            args!(f, g, h);
+            let (f, g, h) = (rlf(f)?, rlf(g)?, rlf(h)?);
+            job!(lax::law_lax_dagger_comp3(&f, &g, &h))
+        }
         "law.strict_dagger" => {
             args!(f);
             let f = rlf(f)?;
